@@ -39,7 +39,8 @@ type c07Case struct {
 	Seccomp    bool
 	Pivot      bool
 	Inject     string
-	K          int // index for mount / rlimit injections
+	Shape      bool // a long descriptor list whose last entry is a read-write file with a number lower than its index
+	K          int  // index for mount / rlimit injections
 	N          int // number of mounts / rlimits
 }
 
@@ -144,6 +145,22 @@ func c07Run(c c07Case, dir string, rec *vh.Recorder) error {
 	argv := s.Argv(tag, 3)
 	argv[0] = probe.Path()
 	r := &forkexec.Runner{Args: argv, Env: []string{"A=1"}, Files: []uintptr{dn.Fd(), dn.Fd(), dn.Fd(), rp.pw.Fd()}, UnshareCgroupAfterSync: c.LateCgroup}
+	if c.Shape {
+		// the internal sync socket lands inside 0..n-1 and has to be moved; the last entry has to be parked first.
+		// If the two ever end up on the same number the child talks to the caller's file instead of the launcher.
+		uf, err := os.OpenFile(filepath.Join(dir, "userfile"), os.O_RDWR|os.O_CREATE|os.O_TRUNC, 0o644)
+		if err != nil {
+			rp.finish()
+			return vh.Infraf("%v", err)
+		}
+		defer uf.Close()
+		uf.Write(make([]byte, 64))
+		uf.Seek(0, 0)
+		for len(r.Files) < int(uf.Fd())+6 {
+			r.Files = append(r.Files, dn.Fd())
+		}
+		r.Files = append(r.Files, uf.Fd())
+	}
 	if c.NewUser {
 		r.CloneFlags |= unix.CLONE_NEWUSER
 		r.UIDMappings = []syscall.SysProcIDMap{{ContainerID: 0, HostID: 0, Size: 1}, {ContainerID: 1234, HostID: 101234, Size: 1}}
@@ -426,7 +443,7 @@ func TestC07Forkexec(t *testing.T) {
 	vh.Check(t, rec, func(rt *rapid.T) c07Case {
 		c := c07Case{Sync: rapid.Bool().Draw(rt, "sync"), NewUser: rapid.Bool().Draw(rt, "newuser"), LateCgroup: rapid.Bool().Draw(rt, "late"),
 			Seccomp: rapid.Bool().Draw(rt, "seccomp"), Pivot: rapid.IntRange(0, 2).Draw(rt, "pivot") == 0,
-			Inject: rapid.SampledFrom(c07Injections).Draw(rt, "inject"), N: rapid.IntRange(1, 5).Draw(rt, "n")}
+			Inject: rapid.SampledFrom(c07Injections).Draw(rt, "inject"), N: rapid.IntRange(1, 5).Draw(rt, "n"), Shape: rapid.IntRange(0, 3).Draw(rt, "shape") == 0}
 		c.K = rapid.IntRange(0, c.N-1).Draw(rt, "k")
 		return c07Normalize(c)
 	}, func(c c07Case) error { return c07Run(c, dir, rec) })
@@ -453,7 +470,7 @@ func TestC07Enumerate(t *testing.T) {
 				ks = []int{0, 1, 3}
 			}
 			for _, k := range ks {
-				c := c07Normalize(c07Case{Sync: cfg&1 != 0, NewUser: cfg&2 != 0, LateCgroup: cfg&4 != 0, Seccomp: cfg%3 == 0, Pivot: cfg%5 == 0, Inject: inj, N: 4, K: k})
+				c := c07Normalize(c07Case{Sync: cfg&1 != 0, NewUser: cfg&2 != 0, LateCgroup: cfg&4 != 0, Seccomp: cfg%3 == 0, Pivot: cfg%5 == 0, Inject: inj, N: 4, K: k, Shape: cfg == 1 || cfg == 6})
 				if err := c07Run(c, dir, rec); err != nil {
 					vh.Report(t, rec, c, err)
 					if _, infra := err.(vh.Infra); infra {
